@@ -185,7 +185,10 @@ def gen_sols(rng, n):
             m, t, c = rng.choice(models), rng.choice(types), rng.choice(costs)
             if constructible(m, c):
                 sols.append([m, t, c])
-        out.append({"op": "sol", "sols": sols, "args": valid_sid_args(rng)})
+        c = {"op": "sol", "sols": sols, "args": valid_sid_args(rng)}
+        if rng.random() < 0.6:      # planning-problem ids in the order the solutions are handed over, not ascending
+            c["pids"] = rng.sample(range(1, 40), k)
+        out.append(c)
     return out
 
 
@@ -298,7 +301,8 @@ def build_solution(c):
     r = make_sid(c["args"])
     if r[0] != "ok":
         return None, None
-    pps = [PlanningProblemSolution(i + 1, VehicleModel[m], VehicleType(t), CostFunction[cf], traj_for(VehicleModel[m]))
+    pids = c.get("pids") or list(range(1, len(c["sols"]) + 1))
+    pps = [PlanningProblemSolution(pids[i], VehicleModel[m], VehicleType(t), CostFunction[cf], traj_for(VehicleModel[m]))
            for i, (m, t, cf) in enumerate(c["sols"])]
     return r[1], Solution(r[1], pps)
 
